@@ -1085,11 +1085,29 @@ impl Formatter {
     }
 
     fn format_match_arm(&mut self, arm: &MatchArm) {
-        self.format_pattern(&arm.pattern.node);
         if let Some(guard) = &arm.guard {
+            // Only the `case` spelling can carry a guard (`pattern if cond =>` does not parse).
+            self.writer.write("case ");
+            self.format_pattern(&arm.pattern.node);
             self.writer.write(" if ");
             self.format_expr(&guard.node);
+            self.writer.writeln(":");
+            self.writer.indent();
+            match &arm.body {
+                MatchBody::Expr(expr) => {
+                    self.format_expr(&expr.node);
+                    self.writer.newline();
+                }
+                MatchBody::Block(stmts) => {
+                    for stmt in stmts {
+                        self.format_statement(&stmt.node);
+                    }
+                }
+            }
+            self.writer.dedent();
+            return;
         }
+        self.format_pattern(&arm.pattern.node);
         self.writer.write(" =>");
         match &arm.body {
             MatchBody::Expr(expr) => {
